@@ -14,6 +14,10 @@
 //	write-back-divergent  SetValues while the file and the loaded state disagree (external
 //	                      edits not loaded yet, keys deleted earlier, defaults after a missing
 //	                      file, in-memory overrides); oracle against the file
+//	observer-histories    registration histories on one ConfigObserver (new names, re-used names,
+//	                      one object under two names, before the first load / between polls /
+//	                      between an edit and its poll): every currently registered observer
+//	                      is run by the poll that loads a change
 //	edit-during-reload    a second save lands right before / right after the library's Read
 //	                      inside one poll (own FileParser through WithParser), then quiet polls
 //	atomicity-sampler     concurrent re-reads of a large file during SetValues
@@ -74,6 +78,9 @@ func main() {
 	timed(c, "edit-during-reload", func() {
 		c.Cases("edit-during-reload", c.N(pick(race, 150, 1600), pick(race, 1000, 24000)), func(i int, r *vlib.Rand) { midReloadCase(c, i, r) })
 	})
+	timed(c, "observer-histories", func() {
+		c.Cases("observer-histories", c.N(pick(race, 150, 1600), pick(race, 1000, 24000)), func(i int, r *vlib.Rand) { obsHistCase(c, i, r) })
+	})
 	timed(c, "atomicity-sampler", func() { c.Cases("atomicity-sampler", c.N(pick(race, 2, 8), pick(race, 4, 32)), func(i int, r *vlib.Rand) { samplerCase(c, i, r) }) })
 	timed(c, "concurrency", func() { c.Cases("concurrency", c.N(pick(race, 8, 24), pick(race, 32, 160)), func(i int, r *vlib.Rand) { stressCase(c, i, r) }) })
 	timed(c, "snapshot", func() { c.Cases("snapshot", c.N(pick(race, 8, 24), pick(race, 16, 96)), func(i int, r *vlib.Rand) { snapCase(c, i, r) }) })
@@ -104,6 +111,8 @@ func main() {
 		c.Floor("divergent_deleted_key_stays_deleted_checks", nd/20, c.Counter("divergent_deleted_key_stays_deleted_checks"))
 		c.Floor("mid_reload_actions_after-read", nd/20, c.Counter("mid_reload_actions_after-read"))
 		c.Floor("mid_reload_actions_before-read", nd/40, c.Counter("mid_reload_actions_before-read"))
+		c.Floor("observer_history_expectations", nd/2, c.Counter("observer_history_expectations"))
+		c.Floor("observer_history_expectations/re-registered-name", nd/10, c.Counter("observer_history_expectations/re-registered-name"))
 		c.Floor("snapshot_calls", 50, c.Counter("snapshot_calls"))
 		c.Floor("snapshot_calls_overlapping_a_reload", 10, c.Counter("snapshot_calls_overlapping_a_reload"))
 	}
